@@ -47,6 +47,13 @@ def check_one(tree, le):
         return 'truth table changed', st
     if not set(algebra.atoms_of(st)) <= set(algebra.atoms_of(tree)):
         return 'simplify() mentions a license absent from the input', st
+    # without the final sorting of the operands (simplify(sort=False)) the meaning is kept as well, and no license appears
+    if tree[0] != 0:
+        su = enc_expr(build_expr(tree).simplify(sort=False))
+        if algebra.same_truth(tree, su) is False:
+            return 'truth table changed by simplify(sort=False)', st
+        if not set(algebra.atoms_of(su)) <= set(algebra.atoms_of(tree)):
+            return 'simplify(sort=False) mentions a license absent from the input', st
     # the same tree over wrapped user objects, or over a mixture of both kinds of symbol, simplifies to the same expression
     for like in REPRESENTATIONS:
         sv = enc_expr(build_expr(tree, like=like).simplify())
